@@ -28,7 +28,9 @@ RULE = ('forms: matrices from tables.rand_spec (dims 1..4, all value kinds incl.
         'zeros / with a value split over duplicate entries, shuffled), coordinate dict (with / without zeros), list of '
         'row arrays float/int, list of row dicts keyed (0, col) (with / without zeros), list of sparse rows (stored zeros, '
         'unsorted), scipy csr/csc (raw arrays with stored zeros and unsorted indices)/coo (shuffled, explicit zeros, '
-        'duplicates)/lil/dok/bsr, int dtype}; ctor: the same forms with ids duplicated anywhere on an axis, one id too '
+        'duplicates)/lil/dok/bsr each also WITH explicitly stored zeros, int dtype}; of every constructed table the queries that look at '
+        'stored entries are asked before anything reads nnz: matrix_data.nnz, nonzero(), min per axis and overall, against the plain '
+        'non-zero cells and against a twin built from the dense array; ctor: the same forms with ids duplicated anywhere on an axis, one id too '
         'few / too many, metadata too short / too long / all-empty of the wrong size / holding a non-mapping (truthy or '
         'falsy), under the default profile (a quarter after an errstate block left by an exception) or with 1-2 kinds set to ignore/warn; adj: 1-8 records over <= 3x3 ids with '
         'repeated pairs, zero and negative values, with / without the header, with comment / blank / short lines, as '
@@ -111,7 +113,14 @@ def make_input(inp):
                          shape=(nr, nc))
         if layout == 'coo':
             return coo, {}
-        return {'lil': lil_matrix, 'dok': dok_matrix, 'bsr': bsr_matrix}[layout](coo), {}
+        zeros = [(r, c) for r, c, v in entries if v == 0]
+        nzc = coo_matrix((np.array([v for _, _, v in entries if v != 0], dtype=float),
+                          (np.array([r for r, _, v in entries if v != 0], dtype=int),
+                           np.array([c for _, c, v in entries if v != 0], dtype=int))), shape=(nr, nc))
+        if layout == 'bsr':
+            # a BSR matrix made from CSR arrays that hold explicit zeros keeps them inside its blocks
+            return _raw('csr', nr, nc, sorted(entries), dtype).tobsr(blocksize=(1, 1)), {}
+        return _with_stored_zeros({'lil': lil_matrix, 'dok': dok_matrix}[layout](nzc), zeros), {}
     raise ValueError(k)
 
 
@@ -154,10 +163,26 @@ def md_in_tree(md):
 
 
 # ---------------------------------------------------------------- encodings of a matrix (generation)
+def _with_stored_zeros(m, zeros):
+    """put explicitly stored zeros into a lil / dok / bsr matrix (their constructors drop them)"""
+    fmt = m.format
+    if fmt == 'lil':
+        for r, c in zeros:
+            if c not in m.rows[r]:
+                k = sum(1 for x in m.rows[r] if x < c)
+                m.rows[r].insert(k, c)
+                m.data[r].insert(k, 0.0)
+    elif fmt == 'dok':
+        for r, c in zeros:
+            if (r, c) not in m.keys():
+                dict.__setitem__(m._dict if hasattr(m, '_dict') else m, (r, c), 0.0)
+    return m
+
+
 VARIANTS = ['array_float', 'array_int', 'array_bool', 'lists', 'triples', 'triples_zeros', 'triples_dups',
             'dict', 'dict_zeros', 'rowarrays', 'rowarrays_int', 'rowdicts', 'rowdicts_zeros', 'sparserows',
             'sparserows_zeros_unsorted', 'csr', 'csc', 'coo', 'lil', 'dok', 'bsr', 'csr_zeros_unsorted',
-            'csc_zeros_unsorted', 'coo_dups_zeros', 'csr_int']
+            'csc_zeros_unsorted', 'coo_dups_zeros', 'csr_int', 'lil_zeros', 'dok_zeros', 'bsr_zeros', 'sparserows_zeros']
 
 
 def applicable(v, M):
@@ -215,12 +240,14 @@ def encode_matrix(rng, v, M):
             for i, j, x in some_zeros():
                 rows[i].append((0, j, x))
         return ['rowdicts', rows]
-    if v in ('sparserows', 'sparserows_zeros_unsorted'):
+    if v in ('sparserows', 'sparserows_zeros_unsorted', 'sparserows_zeros'):
         rows = []
         for i in range(nr):
             cv = [(j, M[i][j]) for j in range(nc) if M[i][j] != 0]
             if v != 'sparserows':
-                cv += [(j, 0.0) for j in range(nc) if M[i][j] == 0][:1]
+                cv += [(j, 0.0) for j in range(nc) if M[i][j] == 0][:rng.randint(1, 2)]
+                cv.sort()
+            if v == 'sparserows_zeros_unsorted':
                 rng.shuffle(cv)
             rows.append([nc, cv])
         return ['sparserows', rows]
@@ -231,6 +258,9 @@ def encode_matrix(rng, v, M):
     if v in ('csr_zeros_unsorted', 'csc_zeros_unsorted'):
         es = nz + some_zeros()
         rng.shuffle(es)
+        return ['sparse', v[:3], 'float', nr, nc, es]
+    if v in ('lil_zeros', 'dok_zeros', 'bsr_zeros'):
+        es = nz + some_zeros()
         return ['sparse', v[:3], 'float', nr, nc, es]
     if v == 'coo_dups_zeros':
         return ['sparse', 'coo', 'float', nr, nc, encode_matrix(rng, 'triples_dups', M)[1]]
@@ -291,6 +321,38 @@ def _res(f):
     except Exception as e:
         return ['err', T.err_code(e) if not isinstance(e, (IndexError, AssertionError)) else 9]
     return ['ok', T.norm_snap(T.snapshot(t))]
+
+
+def zero_queries(t):
+    """the queries that look at STORED entries, asked before anything reads .nnz (which would
+    eliminate explicit zeros): stored-entry count, nonzero(), min per axis and overall"""
+    stored = int(t.matrix_data.nnz)
+    nz = sorted([str(o), str(s)] for o, s in t.nonzero())
+
+    def mn(ax):
+        try:
+            r = t.min(ax)
+        except ValueError:
+            return 'no-entry'            # a vector without any non-zero entry
+        return [float(x) for x in np.atleast_1d(r)]
+    return [stored, nz, [mn('observation'), mn('sample'), mn('whole')]]
+
+
+def _ctor_obs(inp, oids, sids, omd, smd, ty):
+    """construct; ask the zero-sensitive queries of the fresh table and of a twin built from the plain
+    dense array of the described values -> observable, table"""
+    t = _ctor(inp, oids, sids, omd, smd, ty)
+    if t.shape != (len(oids), len(sids)) or len(set(oids)) != len(oids) or len(set(sids)) != len(sids):
+        # accepted only because the profile was changed: per-id queries make no sense, no well-formed twin
+        stored = int(t.matrix_data.nnz)
+        return ['ok', T.norm_snap(T.snapshot(t)), [stored, 1, 1, 1]], t
+    zq = zero_queries(t)
+    snap = T.norm_snap(T.snapshot(t))
+    dense = np.array(snap['mat'], dtype=float).reshape(t.shape)
+    twin = Table(dense, list(oids), list(sids))
+    zt = zero_queries(twin)
+    cells = sorted([str(oids[i]), str(sids[j])] for i in range(dense.shape[0]) for j in range(dense.shape[1]) if dense[i, j] != 0)
+    return ['ok', snap, [zq[0], int(zq[1] == cells), int(zq[2] == zt[2]), int(zq == zt)]], t
 
 
 def reset_profile():
@@ -390,9 +452,9 @@ def _run_impl(c):
         tabs, obs = [], []
         for inp in c['inputs']:
             try:
-                t = _ctor(inp, s['oids'], s['sids'], s['omd'], s['smd'], s['type'])
+                o, t = _ctor_obs(inp, s['oids'], s['sids'], s['omd'], s['smd'], s['type'])
                 tabs.append(t)
-                obs.append(['ok', T.norm_snap(T.snapshot(t))])
+                obs.append(o)
             except Exception as e:
                 tabs.append(None)
                 obs.append(['err', T.err_code(e)])
@@ -411,7 +473,10 @@ def _run_impl(c):
         import warnings
         with warnings.catch_warnings():
             warnings.simplefilter('ignore')
-            return _res(lambda: _ctor(c['inp'], c['oids'], c['sids'], c['omd'], c['smd'], c['type']))
+            try:
+                return _ctor_obs(c['inp'], c['oids'], c['sids'], c['omd'], c['smd'], c['type'])[0]
+            except Exception as e:
+                return ['err', T.err_code(e)]
     if k == 'adj':
         lines = render_adj(c['lines'])
         via = c['via']
@@ -490,20 +555,28 @@ def encode(c):
     return [2, recs, [] if fa is None else [[[enc_str(old), enc_str(new)] for new, old in fa]]]
 
 
-def dec_result(tree, cd):
+def dec_result(tree, cd, zq=False):
     if tree[0] == -1:
         return ['err', tree[1]]
-    return ['ok', T.norm_snap(cd.untable(tree[1]))]
+    raw = cd.untable(tree[1])
+    snap = T.norm_snap(raw)
+    if not zq:
+        return ['ok', snap]
+    # every converter ends with eliminate_zeros (the constructor does it for a scipy matrix): the
+    # table holds exactly the non-zero cells of the model's matrix and answers like its dense twin
+    return ['ok', snap, [sum(1 for row in raw['mat'] for v in row if v != 0), 1, 1, 1]]
 
 
 def decode(tree, c):
     cd = T.Coder(_universe(c))
     k = c['kind']
     if k == 'forms':
-        obs = [dec_result(t, cd) for t in tree]
+        obs = [dec_result(t, cd, True) for t in tree]
         eq = [[int(a[0] == 'ok' and b[0] == 'ok' and a == b) for b in obs] for a in obs]
         return ['forms', obs, eq]
-    if k in ('ctor', 'adj'):
+    if k == 'ctor':
+        return dec_result(tree, cd, True)
+    if k == 'adj':
         return dec_result(tree, cd)
     if tree[0] == -1:
         return ['err', tree[1]]
@@ -726,6 +799,23 @@ def is_malformed(c):
     return why
 
 
+def zero_fails(v, o, mat):
+    """a table built from any form stores exactly the non-zero cells and answers the queries that look at
+    stored entries (nonzero, min, stored count) like the table built from the plain dense array"""
+    fails = []
+    if len(o) < 3:
+        return fails
+    stored, nz_ok, min_ok, all_ok = o[2]
+    want = sum(1 for row in mat for x in row if x != 0)
+    if stored != want:
+        fails.append('input form %s: the fresh table stores %d entries for %d non-zero cells (explicit zeros kept)' % (v, stored, want))
+    if not nz_ok:
+        fails.append('input form %s: nonzero() does not list exactly the non-zero cells' % v)
+    if not min_ok:
+        fails.append('input form %s: min() differs from the table built from the dense array' % v)
+    return fails[:2]
+
+
 def oracle(c, obs):
     if obs and obs[0] == 'crash':
         return ['implementation crashed: %s' % (obs,)]
@@ -740,6 +830,8 @@ def oracle(c, obs):
                 fails.append('accepted input form %s was refused (error %s)' % (v, o[1]))
             elif o[1] != want:
                 fails.append('input form %s does not yield the described table' % v)
+            else:
+                fails += zero_fails(v, o, c['spec']['mat'])
         for i, row in enumerate(obs[2]):
             for j, e in enumerate(row):
                 if not e and obs[1][i][0] == 'ok' and obs[1][j][0] == 'ok':
@@ -763,6 +855,8 @@ def oracle(c, obs):
                 from .core import canon
                 if canon(obs[1]['mat']) != canon(expected_dense(c['inp'], nr, nc)):
                     fails.append('input form %s does not yield the described values' % c['variant'])
+                else:
+                    fails += zero_fails(c['variant'], obs, expected_dense(c['inp'], nr, nc))
         return fails
     if k == 'adj':
         recs = [ln for ln in c['lines'] if ln[0] == 'rec']
